@@ -472,8 +472,10 @@ def gen_action(h, d, pfx, pools):
   if kind == "RawDup":
     # a stored doc action naming a row twice, replayed as it is through ApplyDocActions (the redo path: no user-level clean-up)
     t = h.choice(pfx + "table", d.user_tables(summaries=False))
+    # (Text / Any columns: a stored action holds values already in the column's canonical form; for other types a value from
+    # the pools would not be canonical, and the engine's normalisation on set is not what this template is about)
     dcols = [c for c in d.columns(t) if not d.e.schema[t].columns[c].isFormula and c != "manualSort"
-             and not d.e.schema[t].columns[c].type.startswith("Ref")]
+             and d.e.schema[t].columns[c].type in ("Text", "Any")]
     rows = d.row_ids(t)[:2]
     if not dcols or not rows:
       return ["ApplyDocActions", []]
@@ -711,19 +713,22 @@ def check_direct(d, ag, bundle):
   summ = d.summary_tables()
   targeted = {ua[1] for ua in bundle if len(ua) > 1 and isinstance(ua[1], str)}
   reprs = [actions.get_action_repr(a) for a in ag.stored]
+  # the statement quantifies over bundles of record edits: a bundle that also changes the schema (its columns may switch between
+  # data and formula half way) is judged for clauses (1) and (2) only, unless it consists of that one action
+  pure = all(u[0] in RECORD_KINDS and not str(u[1]).startswith("_grist_") for u in bundle)
   for r, direct in zip(reprs, ag.direct):
     t = r[1]
     if t in summ and t not in targeted and direct and r[0] in ("AddRecord", "BulkAddRecord", "RemoveRecord",
                                                              "BulkRemoveRecord"):
       return "summary-table maintenance marked direct: %s" % (r,)
-    if r[0] in ("UpdateRecord", "BulkUpdateRecord") and not t.startswith("_grist_") and direct:
+    if r[0] in ("UpdateRecord", "BulkUpdateRecord") and not t.startswith("_grist_") and direct and (pure or len(bundle) == 1):
       tab = d.e.tables.get(t)
       cols = list(r[3])
       if tab is not None and cols and all(tab.has_column(c) and tab.get_column(c).is_formula() for c in cols):
         return "formula-result update marked direct: %s" % (r,)
   # clause (4) is judged only for bundles made of record edits: a type change in the same bundle emits
   # conversion deltas for the same cells, which are not the user's edits
-  only_records = all(u[0] in RECORD_KINDS for u in bundle)
+  only_records = pure
   # clause (5): a bundle of record edits on user tables asks for no schema change: the conversion of an empty column while
   # data is entered (ModifyColumn / AddColumn doc actions and the matching _grist_Tables_column updates) is non-direct
   if only_records and not any(str(u[1]).startswith("_grist_") for u in bundle):
@@ -756,6 +761,17 @@ def check_direct(d, ag, bundle):
       if mine:
         return "user record edit not marked direct: %s" % (r,)
   return None
+
+
+def summary_groupby_formula(e):
+  """True when some summary table is grouped by a FORMULA column of its source table"""
+  try:
+    tc = e.fetch_table("_grist_Tables_column")
+  except Exception:
+    return False
+  is_formula = dict(zip(tc.row_ids, tc.columns["isFormula"]))
+  formula = dict(zip(tc.row_ids, tc.columns["formula"]))
+  return any(src and is_formula.get(src) and formula.get(src) for src in tc.columns["summarySourceCol"])
 
 
 def fresh_from(e, with_formulas):
@@ -1022,6 +1038,8 @@ def check_summaries(e):
     if not src or src not in tt.row_ids:
       continue
     srcname = tids[tt.row_ids.index(src)]
+    if tt.columns["summarySourceTable"][tt.row_ids.index(src)]:
+      continue                             # a summary of a summary table: not a configuration the statement describes
     gcols = [c for p, c, sc in zip(tc.columns["parentId"], tc.columns["colId"], tc.columns["summarySourceCol"])
              if p == trow and sc]
     if srcname not in e.tables or tname not in e.tables:
@@ -1056,6 +1074,9 @@ def check_summaries(e):
           else:
             ok = False
         else:
+          if isinstance(v, (list, tuple, dict, set)) or hasattr(v, "_row_ids"):
+            ok = False                     # a list-valued cell in a column that is not a list type (e.g. Any): not specified
+            continue
           if isinstance(co, colmod.DateColumn) and not isinstance(co, colmod.DateTimeColumn) and isinstance(v, (int, float)) \
              and not isinstance(v, bool) and v == v and abs(v) < 1e15:
             v = ("day", int(v // 86400))          # Date cells group by calendar day, whatever the stored seconds
